@@ -10,6 +10,11 @@ Model of transfer persistence (property C17):
   are removed *by key*)
 * `TransferManager.read_cache` / `add`                transfer/manager.py:147-167, 319-344 → `repair` / `Mgr.add` / `Mgr.load`
 * `TransferManager._get_queued_transfers`             transfer/manager.py:598-651 → `eligible` (without the ranking)
+* `TransferManager.add` / `remove` split at their suspension points (the delivery of
+  `TransferAddedEvent`, the state listeners of the abort transition, the delivery of
+  `TransferRemovedEvent`), `write_cache()` possible at every one of them, process end at any
+  point                                               transfer/manager.py:319-377 → `Op` / `step` / `run`
+* `abort()` of the state classes                      transfer/state.py:186-392   → `abortEffect` (generated table)
 
 The hash (`hashlib.sha256(...).hexdigest()`) is a *parameter* `H : ByteArray → K` of `write`; theorems
 assume `Function.Injective H` explicitly. What is hashed (`keyBytes`) is modelled exactly, and its
@@ -257,6 +262,222 @@ def fresh (id : Nat) (u p : Str) (d : Dir) : Transfer :=
               queueAttempts := 0, lastQueueAttempt := 0, uploadRequestAttempts := 0,
               lastUploadRequestAttempt := 0, startTime := none, completeTime := none, hasOffset := false,
               listeners := [], tasks := 0 }
+
+/-! ### `TransferManager.remove` : the abort it starts with (state.py) -/
+
+/-- `_remove_local_file` (state.py:33-46): downloads only, and only a truthy `local_path` (`None` and
+`''` are left alone); afterwards `local_path = None`. -/
+def removeLocalFile (t : Transfer) : Transfer :=
+  if t.dir = .download then
+    match t.localPath with
+    | some (_ :: _) => { t with localPath := none }
+    | _ => t
+  else t
+
+/-- `Transfer.set_complete_time` (model.py:200-204): only when a start time is set -/
+def setCompleteTime (now : Nat) (t : Transfer) : Transfer :=
+  if t.startTime.isSome then { t with completeTime := some now } else t
+
+/-- `transfer.state.abort(reason=AbortReason.REQUESTED)` (manager.py:269): `none` = the state does not
+define `abort` (returns False → `InvalidStateTransition`, swallowed by `remove`). Row of the
+generated table: (stops the transfer, removes the local file). -/
+def abortEffect (now : Nat) (t : Transfer) : Option Transfer :=
+  match abortTable.lookup t.state.name with
+  | none => none
+  | some (stops, removes) =>
+    let t := if stops then setCompleteTime now t else t
+    let t := if removes then removeLocalFile t else t
+    some { t with abortReason := some abortRequested.toList, state := .aborted }
+
+/-! ### histories: operations of the manager split at their suspension points, cache writes anywhere
+
+`add()` (manager.py:333-344) appends the transfer and then awaits the listeners of `TransferAddedEvent`;
+`remove()` (manager.py:350-377) awaits `abort()` — whose transition awaits the transfer's state
+listeners while the transfer is still listed — then detaches the transfer and awaits the listeners of
+`TransferRemovedEvent`. A listener may suspend (or write the cache itself), so `write_cache()` —
+synchronous, manager.py:173-175 — can run at each of these points, and the process can end at each
+of them. `Pending` records an operation suspended in a listener; the *ghost* lists `there` / `gone`
+record what the user has been told: `there` = addition reported (`TransferAddedEvent` delivered) and
+no removal asked for since; `gone` = removal reported (`TransferRemovedEvent` delivered) and no
+addition asked for since. They are bookkeeping of the statement, not of the code. -/
+
+abbrev Ident := Str × Str × Dir
+
+inductive Phase
+  | adding       -- `add()` suspended in the delivery of `TransferAddedEvent`
+  | aborting     -- `remove()` suspended in a state listener of the abort transition (transfer still listed)
+  | announcing   -- `remove()` suspended in the delivery of `TransferRemovedEvent` (transfer detached)
+deriving DecidableEq, Repr
+
+structure Pending where
+  id : Ident
+  phase : Phase
+  /-- an `add()` for the same identity was called while this removal was in progress: its report says
+  nothing about the identity any more -/
+  tainted : Bool
+deriving DecidableEq, Repr
+
+structure Sys (K : Type) where
+  mgr : Mgr
+  db : Db K
+  removedEvents : Nat
+  pending : List Pending
+  there : List Ident
+  gone : List Ident
+
+def mgrId : Nat := 1
+
+def Sys.init {K : Type} : Sys K :=
+  { mgr := Mgr.empty mgrId, db := [], removedEvents := 0, pending := [], there := [], gone := [] }
+
+inductive Op
+  | new                                       -- empty data directory, new manager
+  | add (t : Transfer)                        -- `await add(t)`, no listener suspends
+  | addCall (t : Transfer)                    -- `add(t)` up to the suspended `TransferAddedEvent` listener
+  | addRet (id : Ident)                       -- that listener resumes, `add()` returns
+  | mut (t : Transfer)                        -- attributes of the listed transfer with this identity overwritten
+  | rm (id : Ident) (now : Nat)               -- `await remove(t)`, no listener suspends
+  | rmCall (id : Ident) (now : Nat)           -- `remove(t)` up to its first suspended listener
+  | rmStep (id : Ident)                       -- that listener resumes, up to the next one / the return
+  | store                                     -- `write_cache()` / `store_data()` (also what `stop()` ends with)
+  | legacy (id : Ident) (lacksAbort carriesOffset oldKey unset : Bool)   -- environment: stored entry rewritten
+  | restart                                   -- the process ends here; new manager, `load_data()`
+  | sched (offline : List Str)                -- `_get_queued_transfers()` (observation only)
+deriving Repr
+
+/-- what the call reports (the driver prints it together with sizes read from the new state) -/
+inductive Out
+  | ok | notFound | busy | noPending | dup | pendingAdd | aborting | announcing | done | loaded | loadError
+deriving DecidableEq, Repr
+
+def setAt {α} : List α → Nat → α → List α
+  | [], _, _ => []
+  | _ :: r, 0, a => a :: r
+  | x :: r, n + 1, a => x :: setAt r n a
+
+section
+variable {K : Type} [DecidableEq K]
+
+def Sys.listed (s : Sys K) (id : Ident) : Bool := s.mgr.transfers.any (fun q => ident q = id)
+
+/-- a removal of this identity is in progress -/
+def Sys.removing (s : Sys K) (id : Ident) : Bool :=
+  s.pending.any (fun p => p.id = id ∧ p.phase ≠ .adding)
+
+/-- `add()` (manager.py:333-344). An existing equal transfer is returned at once (no event, no
+suspension). Otherwise: listener attached, appended, cycle requested, `TransferAddedEvent` delivered;
+`gated` = a listener of that event suspends. -/
+def doAdd (s : Sys K) (t : Transfer) (gated : Bool) : Sys K × Out :=
+  let id := ident t
+  let pend := s.pending.map fun p => if p.id = id ∧ p.phase ≠ .adding then { p with tainted := true } else p
+  let gone := s.gone.filter (· ≠ id)
+  if s.listed id then ({ s with pending := pend, gone := gone }, .dup)
+  else
+    ({ s with mgr := s.mgr.add t, gone := gone, there := id :: s.there.filter (· ≠ id),
+              pending := if gated then pend ++ [{ id := id, phase := .adding, tainted := false }] else pend },
+     if gated then .pendingAdd else .ok)
+
+def doAddRet (s : Sys K) (id : Ident) : Sys K × Out :=
+  if s.pending.any (fun p => p.id = id ∧ p.phase = .adding) then
+    ({ s with pending := s.pending.eraseP (fun p => p.id = id ∧ p.phase = .adding) }, .ok)
+  else (s, .noPending)
+
+/-- the `finally:` block of `remove()` up to the delivery of `TransferRemovedEvent` (manager.py:369-375):
+`self._transfers.remove(transfer)` (first equal element), cancelled tasks awaited, event delivered. -/
+def detach (s : Sys K) (id : Ident) (tainted : Bool) : Sys K :=
+  { s with mgr := { s.mgr with transfers := s.mgr.transfers.eraseP (fun q => ident q = id) },
+           removedEvents := s.removedEvents + 1,
+           there := s.there.filter (· ≠ id),
+           gone := if tainted then s.gone.filter (· ≠ id) else id :: s.gone.filter (· ≠ id) }
+
+/-- `remove()` (manager.py:350-377) up to its first suspension. `gated = false`: no listener suspends,
+the call runs to its end. -/
+def doRmCall (s : Sys K) (id : Ident) (now : Nat) (gated : Bool) : Sys K × Out :=
+  match s.mgr.transfers.find? (fun q => ident q = id) with
+  | none => (s, .notFound)                       -- TransferNotFoundError
+  | some q =>
+    if s.removing id then (s, .busy)             -- harness rule: removals of one identity do not overlap
+    else
+      let s := { s with there := s.there.filter (· ≠ id) }
+      match abortEffect now q with
+      | some q' =>
+        -- the transition to ABORTED is announced to the state listeners (the manager's own requests a cycle)
+        let s := { s with mgr := { s.mgr with
+                     transfers := s.mgr.transfers.map (fun x => if ident x = id then { q' with listeners := x.listeners, tasks := x.tasks, hasOffset := x.hasOffset } else x),
+                     cycleRequested := true } }
+        if gated then ({ s with pending := s.pending ++ [{ id := id, phase := .aborting, tainted := false }] }, .aborting)
+        else ({ detach s id false with mgr := { (detach s id false).mgr with cycleRequested := true } }, .done)
+      | none =>
+        let s := detach s id false
+        if gated then ({ s with pending := s.pending ++ [{ id := id, phase := .announcing, tainted := false }] }, .announcing)
+        else ({ s with mgr := { s.mgr with cycleRequested := true } }, .done)
+
+/-- the suspended listener of a removal in progress resumes -/
+def doRmStep (s : Sys K) (id : Ident) : Sys K × Out :=
+  match s.pending.find? (fun p => p.id = id ∧ p.phase ≠ .adding) with
+  | none => (s, .noPending)
+  | some p =>
+    if p.phase = .aborting then
+      let s := detach s id p.tainted
+      ({ s with pending := s.pending.map fun x => if x.id = id ∧ x.phase = .aborting then { x with phase := .announcing } else x },
+       .announcing)
+    else
+      ({ s with pending := s.pending.eraseP (fun x => x.id = id ∧ x.phase ≠ .adding),
+                mgr := { s.mgr with cycleRequested := true } }, .done)
+
+/-- harness action: every attribute but the identity and the listeners is overwritten -/
+def doMut (s : Sys K) (t : Transfer) : Sys K × Out :=
+  match s.mgr.transfers.findIdx? (fun q => ident q = ident t) with
+  | some i =>
+    match s.mgr.transfers[i]? with
+    | some q =>
+      ({ s with mgr := { s.mgr with transfers :=
+          setAt s.mgr.transfers i { t with user := q.user, path := q.path, dir := q.dir, listeners := q.listeners } } }, .ok)
+    | none => (s, .notFound)
+  | none => (s, .notFound)
+
+/-- environment action on the stored entry of one identity: what an older release would have left -/
+def doLegacy (H : ByteArray → K) (s : Sys K) (id : Ident) (a o k st : Bool) : Sys K × Out :=
+  match s.db.find? (fun e => e.2.user = id.1 ∧ e.2.path = id.2.1 ∧ e.2.dir = id.2.2) with
+  | some e =>
+    let r := { e.2 with abortReason := if a then none else e.2.abortReason,
+                        hasOffset := e.2.hasOffset || o,
+                        state := if st then -1 else e.2.state }
+    let db : Db K :=
+      if k then Db.put (s.db.filter (fun x => x.1 ≠ e.1)) (H (oldKeyBytes id.1 id.2.1 id.2.2)) r else Db.put s.db e.1 r
+    ({ s with db := db }, .ok)
+  | none => (s, .notFound)
+
+/-- the process ends (whatever was suspended dies with it); a new manager loads the cache -/
+def doRestart (s : Sys K) : Sys K × Out :=
+  match (Mgr.empty mgrId).load s.db with
+  | some m =>
+    ({ s with mgr := m, removedEvents := 0, pending := [], there := m.transfers.map ident, gone := [] }, .loaded)
+  | none =>
+    ({ s with mgr := Mgr.empty mgrId, removedEvents := 0, pending := [], there := [], gone := [] }, .loadError)
+
+def step (H : ByteArray → K) (s : Sys K) : Op → Sys K × Out
+  | .new => (Sys.init, .ok)
+  | .add t => doAdd s t false
+  | .addCall t => doAdd s t true
+  | .addRet id => doAddRet s id
+  | .mut t => doMut s t
+  | .rm id now => doRmCall s id now false
+  | .rmCall id now => doRmCall s id now true
+  | .rmStep id => doRmStep s id
+  | .store => ({ s with db := write H s.db s.mgr.transfers }, .ok)
+  | .legacy id a o k st => doLegacy H s id a o k st
+  | .restart => doRestart s
+  | .sched _ => (s, .ok)
+
+def run (H : ByteArray → K) (s : Sys K) (ops : List Op) : Sys K := ops.foldl (fun s o => (step H s o).1) s
+
+/-- operations that neither write the cache, nor touch the stored entries, nor end the process -/
+def Op.quiet : Op → Bool
+  | .new | .store | .legacy .. | .restart => false
+  | _ => true
+
+end
 
 /-! ### `_get_queued_transfers` (without `_prioritize_uploads`, which only reorders) -/
 
